@@ -138,6 +138,8 @@ inline std::string exception_name()
   char *d = abi::__cxa_demangle(t->name(), nullptr, nullptr, &st);
   std::string r = (st == 0 && d != nullptr) ? d : t->name();
   std::free(d);
+  // libstdc++'s inline ABI namespace is not part of the documented name
+  for (std::string::size_type p; (p = r.find("__cxx11::")) != std::string::npos;) r.erase(p, 9);
   return r;
 }
 
